@@ -5,6 +5,7 @@ package main
 import (
 	"fmt"
 	"os"
+	"sort"
 	"go/token"
 	"go/types"
 	"strings"
@@ -86,6 +87,10 @@ func mkInt(t Term) Val  { return Val{T: intT, L: []Term{t}} }
 func (e *Engine) specType(name string, se *SpecEnv) types.Type {
 	if t, ok := se.tnames[name]; ok {
 		return t
+	}
+	if _, ok := e.cs.ADTs[name]; ok {
+		e.declareADT(name, se)
+		return e.adtType(name)
 	}
 	switch name {
 	case "", "int":
@@ -259,6 +264,10 @@ func (e *Engine) evalSpec(x *Expr, se *SpecEnv) Val {
 		}
 		if l, ok := se.lets[x.Name]; ok {
 			return e.evalSpec(l, se)
+		}
+		if ad, c := e.findCtor(x.Name); ad != nil && len(c.Fields) == 0 {
+			e.declareADT(ad.Name, se)
+			return Val{T: e.adtType(ad.Name), L: []Term{{x.Name, Sort(ad.Name)}}}
 		}
 		if strings.HasPrefix(x.Name, "K_") {
 			return mkInt(IntLit(int64(kindCode(strings.TrimPrefix(x.Name, "K_")))))
@@ -713,6 +722,11 @@ func (e *Engine) evalCall(x *Expr, se *SpecEnv) Val {
 		return mkBool(e.wellFormed(arg(0), se.st.next))
 	case "param":
 		// param(x): the entry value of parameter x (when a local variable shadows it)
+		if se.fr != nil && se.fr.parent != nil {
+			if v, ok := se.vars[x.Args[0].Name]; ok {
+				return v
+			}
+		}
 		if v, ok := e.params[x.Args[0].Name]; ok {
 			return v
 		}
@@ -900,6 +914,28 @@ func (e *Engine) evalCall(x *Expr, se *SpecEnv) Val {
 		return e.unbox(arg(0).L[1], e.specType(x.Args[1].Name, se))
 	case "hastype":
 		return mkBool(Eq(arg(0).L[0], e.lay.TypeID(e.specType(x.Args[1].Name, se))))
+	case "view":
+		// view(p): the abstract value of the owned structure rooted at pointer p
+		p := arg(0)
+		od := e.isOwnedPtr(p.T)
+		if od == nil {
+			panic(unsupported("view of %s", p.T))
+		}
+		elem := p.T.Underlying().(*types.Pointer).Elem()
+		if t, ok := e.viewOf(se.st, od, p.L[0], elem, 0); ok {
+			return Val{T: e.adtType(od.ADT), L: []Term{t}}
+		}
+		// not (entirely) owned: an unconstrained value, so that clauses about it cannot be proved
+		e.declareADT(od.ADT, se)
+		return Val{T: e.adtType(od.ADT), L: []Term{e.ctx.Fresh("t_unowned", Sort(od.ADT))}}
+	case "owned":
+		p := arg(0)
+		od := e.isOwnedPtr(p.T)
+		if od == nil {
+			return mkBool(False)
+		}
+		_, ok := e.viewOf(se.st, od, p.L[0], p.T.Underlying().(*types.Pointer).Elem(), 0)
+		return mkBool(mkBoolTerm(ok))
 	case "setmap":
 		return e.setMapOf(se.st, arg(0))
 	case "absmap":
@@ -930,6 +966,46 @@ func (e *Engine) evalCall(x *Expr, se *SpecEnv) Val {
 	}
 	if v, ok := e.evalExtCall(x, se); ok {
 		return v
+	}
+	if ad, c := e.findCtor(x.Name); ad != nil {
+		e.declareADT(ad.Name, se)
+		if len(c.Fields) != len(x.Args) {
+			panic(unsupported("constructor %s expects %d arguments", c.Name, len(c.Fields)))
+		}
+		var as []string
+		for i := range x.Args {
+			a := arg(i)
+			if len(a.L) == 1 && a.L[0].Sort == SInt && c.Fields[i].Type != "int" && c.Fields[i].Type != ad.Name {
+				if ls := e.lay.Leaves(e.specType(c.Fields[i].Type, se)); len(ls) == 1 {
+					if lit, ok := e.litTo(a.L[0], ls[0].Sort); ok {
+						a = Val{L: []Term{lit}}
+					}
+				}
+			}
+			as = append(as, a.L[0].S)
+		}
+		return Val{T: e.adtType(ad.Name), L: []Term{T(Sort(ad.Name), "(%s %s)", c.Name, strings.Join(as, " "))}}
+	}
+	if i := strings.Index(x.Name, "_"); i > 0 && len(x.Args) == 1 {
+		// selector <Ctor>_<field>(t)
+		if ad, c := e.findCtor(x.Name[:i]); ad != nil {
+			for _, f := range c.Fields {
+				if f.Name == x.Name[i+1:] {
+					e.declareADT(ad.Name, se)
+					a := arg(0)
+					if f.Type == ad.Name {
+						return Val{T: e.adtType(ad.Name), L: []Term{T(Sort(ad.Name), "(%s %s)", x.Name, a.L[0].S)}}
+					}
+					ft := e.specType(f.Type, se)
+					return Val{T: ft, L: []Term{T(e.lay.Leaves(ft)[0].Sort, "(%s %s)", x.Name, a.L[0].S)}}
+				}
+			}
+		}
+	}
+	if strings.HasPrefix(x.Name, "is") {
+		if ad, c := e.findCtor(strings.TrimPrefix(x.Name, "is")); ad != nil && len(x.Args) == 1 {
+			return mkBool(T(SBool, "((_ is %s) %s)", c.Name, arg(0).L[0].S))
+		}
 	}
 	// user spec function (macro or uninterpreted)
 	if sf, ok := e.cs.SpecFuncs[x.Name]; ok {
@@ -1103,4 +1179,29 @@ func (e *Engine) ghostArray(st *State, gv *GhostVar, se *SpecEnv) Val {
 		return v
 	}
 	return Val{T: nil, L: []Term{e.ctx.Const("ghost_"+gv.Name+"_0", e.ghostSort(gv, se))}, G: gv}
+}
+
+func (e *Engine) findCtor(name string) (*ADTDecl, *ADTCtor) {
+	for _, d := range e.cs.ADTs {
+		for i := range d.Ctors {
+			if d.Ctors[i].Name == name {
+				return d, &d.Ctors[i]
+			}
+		}
+	}
+	return nil, nil
+}
+
+// assumeTheory asserts the package's `auto` axioms (definitional equations of spec functions over datatypes).
+func (e *Engine) assumeTheory(st *State, pkg string, se *SpecEnv) {
+	var names []string
+	for n, ax := range e.cs.Axioms {
+		if ax.Auto && ax.Pkg == pkg {
+			names = append(names, n)
+		}
+	}
+	sort.Strings(names)
+	for _, n := range names {
+		st.Assume(e.evalBool(e.cs.Axioms[n].Body, se))
+	}
 }
